@@ -53,6 +53,7 @@ ASSUMPTIONS = [
     "scheduled below an InterleavedSampler: only MAIN samples are judged, n_batches comes from the main dataset's own length; with >= 2 workers every interleaved block is generated as a multiple of W batches (torch deals main and side batches to the workers alike, the per-worker counter only sees main batches - other block sizes are outside what the counter can support and are not driven); real loaders from get_data_loader() with 0..1 workers",
     "scheduled: calls made before worker_init_fn configured the schedule (main-process peeks, 0..batch_size+1 of them) are unscheduled and must not shift the batch index of the later pass",
     "scheduled, shared wrapped object: two scheduled transforms with different schedules around one transform object are called alternately per sample; every call must be the call of a fresh instance scaled by the calling wrapper's own schedule value (observed through draws / reported parameters / returned value, not only ctx strength)",
+    "compositions whose public `transforms` list is edited after construction (item assignment, append, reassignment): the live members are the members; scheduled: a ctx dict reused for consecutive calls must report the strength of the call just made",
     "scheduled: full batches only; with samples % batch_size != 0 only the full batches are judged; one pass over the loader (worker re-creation between epochs is outside the claim); torch assigns batch b to worker b % num_workers",
 ]
 MONITORS = ["restore_checked", "collapse_checked", "identity_checked", "monotone_checked", "compounding_checked",
@@ -198,6 +199,8 @@ def _gen_sched(rng, recipes, loader):
     Bp = spec["B"]
     spec["peeks"] = rng.choice([0, 0, 1, 2, max(Bp - 1, 1), Bp + 1, 1, Bp + 1])
     spec["peek_ctx"] = rng.random() < 0.5
+    spec["edit"] = rng.choice([None, "assign", "append", "reassign"])     # used by the S(C[t,o]) shape
+    spec["reuse_ctx"] = rng.random() < 0.5                                 # one ctx dict handed to consecutive samples
     return spec
 
 
@@ -239,6 +242,8 @@ def _gen_sched_inter(rng, recipes, loader):
     Bp = spec["B"]
     spec["peeks"] = rng.choice([0, 0, 1, 2, max(Bp - 1, 1), Bp + 1, 1, Bp + 1])
     spec["peek_ctx"] = rng.random() < 0.5
+    spec["edit"] = rng.choice([None, "assign", "append", "reassign"])     # used by the S(C[t,o]) shape
+    spec["reuse_ctx"] = rng.random() < 0.5                                 # one ctx dict handed to consecutive samples
     return spec
 
 
@@ -257,6 +262,7 @@ def _gen_sched_shared(rng, recipes):
         variant = "direct"    # thresholding writes into its input; the multi-view wrapper hands one sample object to all views (aliasing, not a scaling question)
     return {"kind": "sched_shared", "inner": inner, "variant": variant,
             "input": _input(rng, kind), "W": W, "B": B, "n": n, "init": rng.choice(["updates", "samples"]), "schedules": [a, b], "wrap": "S(t)",
+            "reuse_ctx": rng.random() < 0.5,
             "np_seed": rng.randrange(2 ** 31)}
 
 
@@ -295,8 +301,9 @@ def _gen_graph(rng, recipes, scenario):
         comps = rng.choice([[["m0", "m1", "m2"]], [["m0", "m1"], ["m1", "m2"]], [["m1", "m2"], ["m0", "c0"]], [["m0", "m1"], ["c0", "m2", "m1"]]])
         targets = ["m0", "m1", "m2"] + [f"c{i}" for i in range(len(comps))] * 2
         hist = [[rng.choice(targets), rng.choice(pool[:3])] for _ in range(rng.randint(3, 9))]
+    # how the composition gets its members: at construction, or by editing its public `transforms` list afterwards
     return {"kind": "graph", "scenario": scenario, "members": members, "comps": comps, "history": hist, "input": _input(rng, kind),
-            "np_seed": rng.randrange(2 ** 31)}
+            "edit": rng.choice([None, "assign", "append", "reassign", "assign", "append", "reassign"]), "np_seed": rng.randrange(2 ** 31)}
 
 
 def gen_cases(run):
@@ -656,7 +663,7 @@ def _pipe(spec, scheduled):
     arg, _ = S.schedule_arg_and_reference(spec["schedule"])
     wrap = spec["wrap"]
     if wrap == "S(C[t,o])":
-        driven = KDComposeTransform([inner, other])
+        driven = _compose_edited([inner, other], spec.get("edit") if scheduled else None, lambda: _build_simple(spec["inner"]))
     else:
         driven = inner
     core_t = KDScheduledTransform(driven, schedule=arg) if scheduled else driven
@@ -737,6 +744,18 @@ def _check_sample(run, spec, where, b, expected, ctx_flat, draws, out, ref, u):
                       f"that value: " + "; ".join(diffs[:4]))
 
 
+def _next_ctx(spec, reused):
+    """the ctx dict handed to the next call: a new one, or ONE dict reused for consecutive samples (also by both wrappers
+    of a shared pair). Of a reused dict only the reported strength of the previous call is kept, so that the other
+    reported parameters are those of the call just made."""
+    if not spec.get("reuse_ctx"):
+        return {}
+    for k in list(reused):
+        if k != S.STRENGTH_KEY:
+            del reused[k]
+    return reused
+
+
 def _peek(run, spec, root, x, n_items):
     """k unscheduled calls in the main process before workers exist; -> False if one of them failed"""
     for j in range(spec.get("peeks", 0)):
@@ -779,6 +798,7 @@ def _run_sched_sim(run, spec):
     hf = _hook_factory(spec)
     where = f"simulated workers ({level} level), pipeline {spec['wrap']} around {spec['inner']['cls']}, schedule {spec['schedule']['type']}"
     run.cover("sched_sim", spec["wrap"], level, min(W, 5), min(B, 3), spec["init"], spec["schedule"]["type"], "n<W" if n_full < nW else "n%W" if n_full % nW else "n|W")
+    reused = {}
     for b in range(n_full):
         w = b % nW
         ok, expected = call_real(run, lambda: ref_value(b, span), crash_key="reference-crash", what="reference schedule")
@@ -792,7 +812,7 @@ def _run_sched_sim(run, spec):
                 g = R.RecGen(np.random.PCG64(0), u=u, gate=0.0, choice_hook=hf() if hf else None)
                 R.inject(workers[w], g)
                 if level == "transform":
-                    ctx = {}
+                    ctx = _next_ctx(spec, reused)
                     call = lambda: workers[w](R.clone_input(x), ctx)
                 else:
                     call = lambda: workers[w][b * B + s]
@@ -1035,6 +1055,7 @@ def _run_sched_shared(run, spec):
     refs = [_Reference(run, dict(spec, schedule=sc), x) for sc in spec["schedules"]]
     hf = _hook_factory(spec)
     run.cover("sched_shared", spec["variant"], min(W, 3), B, tuple(sc["type"] for sc in spec["schedules"]))
+    reused = {}
     for b in range(n):
         w = b % nW
         exp = [rv(b, n) for rv in refs_v]
@@ -1058,7 +1079,7 @@ def _run_sched_shared(run, spec):
                     for v in (0, 1):
                         g = R.RecGen(np.random.PCG64(0), u=u, gate=0.0, choice_hook=hf() if hf else None)
                         R.inject(workers[w], g)
-                        ctx = {}
+                        ctx = _next_ctx(spec, reused)
                         if g.choice_hook is not None:
                             g.choice_hook.drain()
                         ok, out = call_real(run, lambda: workers[w][v](R.clone_input(x), ctx), crash_key="scheduled-call-crash", what=where)
@@ -1078,6 +1099,23 @@ def _run_sched_shared(run, spec):
 
 
 # ================================================================================================ factor histories over object graphs
+def _compose_edited(children, edit, placeholder):
+    """KDComposeTransform whose live public member list is `children`, reached by editing the list after construction"""
+    from kappadata.transforms.base.kd_compose_transform import KDComposeTransform
+    if edit == "assign":
+        c = KDComposeTransform([placeholder()] + list(children[1:]))
+        c.transforms[0] = children[0]
+    elif edit == "append":
+        c = KDComposeTransform(list(children[:-1]))
+        c.transforms.append(children[-1])
+    elif edit == "reassign":
+        c = KDComposeTransform([placeholder() for _ in children])
+        c.transforms = list(children)
+    else:
+        c = KDComposeTransform(list(children))
+    return c
+
+
 def _reach(comps, name):
     if name.startswith("m"):
         return {name}
@@ -1103,7 +1141,7 @@ def _run_graph(run, spec):
 
     def get(name):
         if name not in objs:   # compositions are constructed when they are first needed (members may be pre-scaled by then)
-            objs[name] = KDComposeTransform([get(ch) for ch in comps[int(name[1:])]])
+            objs[name] = _compose_edited([get(ch) for ch in comps[int(name[1:])]], spec.get("edit"), subs["m0"].build)
         return objs[name]
 
     run.cover("graph", spec["scenario"], len(comps), kind)
